@@ -17,7 +17,8 @@ RULE = ("tuples of 2-3 identifiers from a generator of whitespace-free well-form
         "absolute paths, leading '.'/'-', shell and glob metacharacters, NUL and other controls, combining marks, "
         "astral code points, hex-digest look-alikes, names of store directories, 255-5000 characters) where the 2nd/3rd "
         "are RELATIVES of the first (prefix, suffix, doubled last char, +NUL, case variant, +'/', +'.') or independent; "
-        "format ids from the same generator (incl. pairs whose pid+format concatenations coincide). Script: store A, "
+        "format ids from the same generator (incl. pairs whose pid+format concatenations coincide, and two formats "
+        "of one pid that are relatives of each other: +'/', +'.', case variant, prefix). Script: store A, "
         "store B (same content), store_metadata A/B, tag C, retrieve, delete_metadata, delete A, re-store A with other "
         "content, delete B ... run in a sandbox (store at sbx/store, cwd sbx/cwd) with the probe recording every "
         "operation. Oracle after EVERY step: the untouched identifiers' objects, references and metadata equal the "
@@ -84,7 +85,8 @@ def make_tuple(rng):
         extra = ids[1][len(ids[0]):]
         fmts.append(extra + f1)      # (ids[0], extra+f1) and (ids[1], f1) concatenate equally
     else:
-        fmts.append(adversarial_id(rng, 8))
+        rel = relatives(rng, f1)
+        fmts.append(rng.choice(rel) if rel and rng.random() < 0.7 else adversarial_id(rng, 8))
     return ids, fmts
 
 
@@ -96,6 +98,7 @@ def script(rng, ids, fmts):
         {"op": "smeta", "pid": A, "fmt": fmts[2], "doc": "d1", "kind": "path"},
         {"op": "smeta", "pid": B, "fmt": fmts[1], "doc": "d2", "kind": "path"},
         {"op": "smeta", "pid": A, "fmt": None, "doc": "d2", "kind": "path"},
+        {"op": "smeta", "pid": A, "fmt": fmts[1], "doc": "d1", "kind": "path"},
         {"op": "tag", "pid": Cc, "cid": ["of", "X"]},
         {"op": "retrieve", "pid": A},
         {"op": "rmeta", "pid": B, "fmt": fmts[1]},
